@@ -375,6 +375,37 @@ def edge_formulas(quick=True):
     return out
 
 
+def rendered_then_changed(formulas, rng):
+    """The same objects used again: each formula is rendered once (every DIMACS entry point), then changed
+    (variables only / a clause only / both) and handed to the writers again - what is written must be the
+    formula as it is now."""
+    import copy
+    out = []
+    for name, F in formulas:
+        if len(F) > 300 or any(has_break(str(v)) for v in F.header.values()):
+            continue
+        for kind in ("vars", "clause", "both"):
+            G = copy.deepcopy(F)
+            try:
+                G.to_dimacs()
+                G.to_file(io.StringIO(), fileformat="dimacs", export_header=True, export_varnames=True)
+            except Exception:
+                continue
+            n = G.number_of_variables()
+            if kind in ("vars", "both"):
+                G.update_variable_number(n + 1)
+                if hasattr(G, "new_variable"):
+                    G.new_variable("late_{}".format(n))
+            if kind in ("clause", "both"):
+                G.add_clause([-max(1, G.number_of_variables())] if G.number_of_variables() else [])
+            out.append(("%s.%s" % (name[:18], kind[0]), G))
+    return out
+
+
+def has_break(s):
+    return "\n" in s or "\r" in s
+
+
 def family_formulas(ck):
     import cnfgen as c
     rng = ck.rng
@@ -855,6 +886,7 @@ def main(argv=None):
 
     # (B)
     formulas = edge_formulas(ck.quick) + filename_roundtrip(ck, wd) + family_formulas(ck)
+    formulas += rendered_then_changed([f for f in formulas if not f[0].startswith("large-")], ck.rng)
     wrecs, texts = write_records(ck, wd, formulas)
     for r in wrecs:
         r["tier"], r["seed"] = ck.tier, ck.seed
